@@ -318,6 +318,16 @@ func Main(t *testing.T, property string, gen func(c *C) []Case) {
 		c.cur = k.ID
 		fmt.Printf("@@BEGIN %s\n", k.ID)
 		k.Run(c)
+		// auxiliary race pass: in a -race build, reports the case did not consume itself become
+		// violations when both stacks lie in repository code (free-running code: not exhaustive)
+		for _, rr := range c.NewRaceReports() {
+			if rr.Frames[0] == "" || rr.Frames[1] == "" {
+				c.Add("race_reports_with_harness_frames", 1)
+				continue
+			}
+			c.Add("race_reports", 1)
+			c.Violation("no-data-race (auxiliary free-running pass)", strings.ToLower(c.Property)+"-"+rr.Signature, fmt.Sprintf("case %s: data race between %s and %s", k.ID, rr.Frames[0], rr.Frames[1]), json.RawMessage(c.Replay))
+		}
 		fmt.Printf("@@END %s\n", k.ID)
 		c.tot.Cases++
 		c.flush(false)
